@@ -95,6 +95,12 @@ class Sys:
         self.shared = mk_shared()
         self.reg.add_context(self.shared)
         self.other.add_context(self.shared)
+        # two NAMELESS context objects (never registered; passed to enable_contexts as objects) that are alike in everything
+        # a cache key could look at — no name, no aliases, no rules, no defaults — except in what they redefine
+        pint = core.boot()
+        self.anon = {"@X1": pint.Context(), "@X2": pint.Context()}
+        self.anon["@X1"].redefine("foot = 9 * inch")
+        self.anon["@X2"].redefine("pound = 100 * gram")
         self.blocks = []  # open with-blocks: (context manager, n contexts)
         self.model = []  # reference stack: (name, kwargs)
         self.mblocks = []  # reference: sizes of open blocks
@@ -104,6 +110,9 @@ class Sys:
 EVENTS = [
     ("enable", ["A"], {}), ("enable", ["A"], {"n": 2}), ("enable", ["Ax"], {"n": 5}), ("enable", ["B"], {}), ("enable", ["R"], {}), ("enable", ["RB"], {}),
     ("enable", ["A", "R"], {}), ("enable", ["R", "RB"], {}), ("enable", ["SH"], {}),
+    ("enable", ["@X1"], {}), ("enable", ["@X2"], {}),
+    # a keyword value that cannot be part of a cache key (a list): the activation of a redefining context fails on it
+    ("enable", ["R"], {"n": "@list"}), ("with", ["RB"], {"n": "@list"}), ("enable", ["A", "R"], {"n": "@list"}),
     ("to", ["A"], {"n": 7}),
     # a function decorated with ureg.with_context: its contexts are active during the call only — also when their
     # activation fails, whatever the caller has active
@@ -123,8 +132,16 @@ def ev_key(ev):
     return tuple(tuple(x) if isinstance(x, list) else (tuple(sorted(x.items())) if isinstance(x, dict) else x) for x in ev)
 
 
+def _kw_items(kw):
+    return kw.items() if isinstance(kw, dict) else kw
+
+
 def is_failing(ev):
-    return ev[0] == "fault" or (ev[0] in ("enable", "with", "deco") and any(n in FAILING for n in ev[1]))
+    return ev[0] == "fault" or (ev[0] in ("enable", "with", "deco") and (any(n in FAILING for n in ev[1]) or any(v == "@list" for _, v in _kw_items(ev[2]))))
+
+
+def real_kw(kw):
+    return {k: ([1, 2] if v == "@list" else v) for k, v in dict(kw).items()}
 
 
 def call(fn):
@@ -215,9 +232,9 @@ class CtxDriver(explore.Driver):
         reg = s.reg
         kind = ev[0]
         if kind == "enable":
-            names, kw = list(ev[1]), dict(ev[2])
-            o = call(lambda: reg.enable_contexts(*names, **kw))
-            if not any(n in FAILING for n in names):
+            names, kw = list(ev[1]), real_kw(ev[2])
+            o = call(lambda: reg.enable_contexts(*[s.anon.get(n, n) for n in names], **kw))
+            if not is_failing(ev):
                 s.model.extend((n, kw) for n in names)
             return o[:1] if o[0] == "ok" else o
         if kind == "to":
@@ -240,7 +257,7 @@ class CtxDriver(explore.Driver):
                 del s.model[len(s.model) - n :]
             return o[:1]
         if kind == "with":
-            names, kw = list(ev[1]), dict(ev[2])
+            names, kw = list(ev[1]), real_kw(ev[2])
             cm = reg.context(*names, **kw)
             o = call(cm.__enter__)
             if o[0] == "ok":
@@ -336,7 +353,7 @@ class CtxDriver(explore.Driver):
             for d in defined:
                 f.reg.define(d)
             for n, kw in model:
-                f.reg.enable_contexts(n, **kw)
+                f.reg.enable_contexts(f.anon.get(n, n), **kw)
             self._ref_cache[key] = probes(f.reg)
         return self._ref_cache[key]
 
